@@ -66,7 +66,7 @@ func (ex *Exec) monitorEnter(c *callCtx, mu Val) {
 				if _, ok := ex.ghostGet(c.st, gn); !ok {
 					panic(unsupported("monitor: undeclared ghost " + gn))
 				}
-				c.st.H["X|"+gn] = ex.freshConst("prot", ex.keySort["X|"+gn])
+				ex.setH(c.st, "X|"+gn, ex.freshConst("prot", ex.keySort["X|"+gn]))
 				continue
 			}
 			ex.havocProtected(fr, pn, c.st)
@@ -104,7 +104,7 @@ func (ex *Exec) monitorExit(c *callCtx, mu Val) {
 				if !ok {
 					panic(unsupported("onunlock: undeclared ghost " + u.Name))
 				}
-				c.st.H["X|"+u.Name] = ex.name("gupd", ite(c.r(), app("+", cur.L[0], amt), cur.L[0]), sInt)
+				ex.setH(c.st, "X|"+u.Name, ex.name("gupd", ite(c.r(), app("+", cur.L[0], amt), cur.L[0]), sInt))
 				if fr.contrib == nil {
 					fr.contrib = map[string]string{}
 				}
@@ -434,6 +434,13 @@ func (fr *frame) spawnClosure(f Val, st *State, reach string, what string) {
 				}
 			}
 		}
+		for i, prm := range callee.Params {
+			if i < len(fr.spawnArgs) {
+				a := fr.spawnArgs[i]
+				a.T = prm.Type()
+				env[prm.Name()] = a
+			}
+		}
 		for _, cl := range c.Requires {
 			g := fr.evalClause(cl, fr.curBlk, st, env)
 			ex.oblige(fr.label("spawn."+sanitize(c.Name)+"."+cl.Label), "requires-at-call", cl.Props, imp(reach, g), cl.Pos, cl.Text)
@@ -464,7 +471,7 @@ func (ex *Exec) expectedGet(st *State, name string) string {
 
 func (ex *Exec) bumpExpected(st *State, name string, n int, reach string) {
 	cur := ex.expectedGet(st, name)
-	st.H["X|expect."+name] = ex.name("expect", ite(reach, app("+", cur, num(int64(n))), cur), sInt)
+	ex.setH(st, "X|expect."+name, ex.name("expect", ite(reach, app("+", cur, num(int64(n))), cur), sInt))
 	ex.counters[name] = true
 }
 
@@ -499,7 +506,54 @@ func (fr *frame) join(st *State, reach string) {
 		}
 	}
 	clock, _ := ex.ghostGet(st, "clock")
-	ex.havocAll(st, "join with spawned goroutines")
+	// what the goroutines may have written: the union of their modifies clauses when every one of them has a precise
+	// frame, everything otherwise
+	precise := len(fr.spawned) > 0
+	for _, sp := range fr.spawned {
+		c := ex.w.contracts[sp.fn]
+		if c == nil || !c.HasMod || len(sp.fn.Params) > 0 && modifiesMentionsParams(c, sp.fn) {
+			precise = false
+			break
+		}
+		for _, m := range c.Modifies {
+			if strings.TrimSpace(m) == "*" {
+				precise = false
+			}
+		}
+	}
+	if precise {
+		func() {
+			defer func() {
+				if r := recover(); r != nil {
+					if _, isU := r.(unsupportedErr); isU {
+						precise = false
+						return
+					}
+					panic(r)
+				}
+			}()
+			for _, sp := range fr.spawned {
+				c := ex.w.contracts[sp.fn]
+				// the closure's free variables are the spawner's own locals of the same name
+				env := map[string]Val{}
+				saved := ex.callerFrame
+				ex.callerFrame = fr
+				defer func() { ex.callerFrame = saved }()
+				var heapOnly Contract = *c
+				heapOnly.Modifies = nil
+				for _, m := range c.Modifies {
+					if !strings.HasPrefix(strings.TrimSpace(m), "ghost ") {
+						heapOnly.Modifies = append(heapOnly.Modifies, m)
+					}
+				}
+				ex.applyModifies(&heapOnly, env, st)
+			}
+			ex.used["join: only the locations named by the spawned closures' modifies clauses are forgotten"] = true
+		}()
+	}
+	if !precise {
+		ex.havocAll(st, "join with spawned goroutines")
+	}
 	// ghost state written by the goroutines is forgotten as well (the clock only moves forward)
 	// framed ghost variables change only if a spawned closure declares them (closures without a contract: all of them)
 	declared := map[string]bool{}
@@ -527,11 +581,11 @@ func (fr *frame) join(st *State, reach string) {
 			}
 			if ex.counters[k[2:]] {
 				// every spawned goroutine has finished: the counter has received all contributions
-				st.H[k] = ex.expectedGet(st, k[2:])
+				ex.setH(st, k, ex.expectedGet(st, k[2:]))
 				ex.used["A-JOIN: counter ghost "+k[2:]+" equals the sum of the contributions of the joined goroutines"] = true
 				continue
 			}
-			st.H[k] = ex.freshConst("jg", srt)
+			ex.setH(st, k, ex.freshConst("jg", srt))
 		}
 	}
 	nc, _ := ex.ghostGet(st, "clock")
@@ -679,4 +733,16 @@ func (ex *Exec) atlockCallee(pre *State) *State {
 	s.Base = ex.newHavocBase(pre.Top)
 	ex.pure = saved
 	return s
+}
+
+// modifiesMentionsParams: does a modifies item of closure contract c refer to one of the closure's parameters?
+func modifiesMentionsParams(c *Contract, fn *ssa.Function) bool {
+	for _, m := range c.Modifies {
+		for _, prm := range fn.Params {
+			if strings.Contains(m, prm.Name()) {
+				return true
+			}
+		}
+	}
+	return false
 }
